@@ -7,10 +7,10 @@ void registerLinear() {
   regLin<Lin<void>>("lock", L_ALL);
   regLin<Lin<uint32_t>>("lock", L_ALL);
   regLin<Lin<uint64_t, true, true>>("nolock+numa", L_READ | L_SORTDATA);
-  regLin<Lin<E12, false, false, true, true>>("ool+id", L_READ);
+  regLin<Lin<E12, false, false, true, true>>("ool+id", L_ALL);
   regLin<Lin<E12, false, true>>("lock+numa", L_SORTDATA | L_SORTCUSTOM);
   regLin<Lin<float, false, true>>("lock+numa", L_READ);
-  regLin<Lin<void, true, false, false, false, void>>("nolock+voidnode", L_READ);
+  regLin<Lin<void, true, false, false, false, void>>("nolock+voidnode", L_READ | L_SORTCUSTOM);
   regLin<Lin<uint32_t, false, true, true, true>>("ool+id+numa", L_READ);
 }
 
